@@ -80,11 +80,16 @@ def run(ctx):
         raise vlib.Infra("trap property did not produce the lost-wake-up schedule")
     ctx.sample({"lost_wakeup_schedule_from_TLC": trap.trace[-1][1].get("gate", "")})
     # Pipeline.tla under fairness
-    lives = [{}, {"Classes": '{"P", "H", "C"}'}, {"Strs": '{"a", "b"}', "Capacity": "1"}]
+    split = {"Classes": '{"S"}', "KidsPer": "2", "KidBase": "20", "MaxId": "22"}     # children fill the batch, the parent sits alone in the next one
+    lives = [{}, {"Classes": '{"P", "H", "C"}'}, {"Strs": '{"a", "b"}', "Capacity": "1"}, split]
     if thorough:
         lives.append({"HasDQ": "TRUE", "MaxFails": "2", "Classes": '{"P"}'})
     for ov in lives:
         ctx.tlc_expect_ok("Pipeline", "Pipeline_live.cfg", timeout=900, deadlock=False, overrides=ov, name="Pipeline/live %s" % json.dumps(ov))
+    r = ctx.tlc("Pipeline", "Pipeline_live.cfg", timeout=300, deadlock=False, overrides=dict(split, M_TimerFlushesAny="FALSE"),
+                name="Pipeline/live mutant (heartbeat flushes only batches with deliverable events)")
+    if r.ok or r.violated != "EventuallyQuiescent":
+        raise vlib.Infra("spec mutant M_TimerFlushesAny is not rejected by EventuallyQuiescent (violated=%s): mechanism vacuous" % r.violated)
     # 2. real pools: constructed window + ordinary blocking + churn
     out = os.path.join(ctx.scratch, "c04_pools.json")
     rc, txt = ctx.run_bin(binary, "^TestVerifC04Pools$", env={"VERIF_OUT": out}, timeout=900)
